@@ -18,7 +18,7 @@ pub fn mon() -> Mon {
         replay,
         rule: "Configurations with every message-type list length 0..30 (random contents including 0x00, 0xFF and duplicates) and random vendor sets; histories of 10-120 operations (one in 40: 300-800 operations on one context) mixing 0-10 set_uuid calls, the three identity queries (Get Message Type Support, Get Endpoint UUID, Get MCTP Version Support with every query byte) and the C13 traffic mix (assignments, other queries, responses, vendor messages, corrupted/truncated packets, decode-only calls, accessor writes, garbage) on two interleaved contexts; plus 'observe - N mutations - observe' histories for every N in 1..600 (UUID updates, or other traffic, between two identical queries from the same requester). Every response to the three queries is compared byte-for-byte and with exact length against the model: [0, n, types...], [0, the 16 bytes last installed (zero before any)], [0, 1, F1, F3, F1, 00]. A sample is logged as JSONL and re-checked in Python. Non-trivial = a history containing at least one of the three queries and at least one other operation; distinct = distinct histories.",
         assumptions: &["message-type lists of at most 30 entries (the documented bound)", "set_uuid is given exactly 16 bytes"],
-        children: no_children,
+        children: rel_child_quarter,
     }
 }
 
